@@ -22,23 +22,24 @@ import (
 // according to a per-token script; faults are triggered inside operations (at the arrival of
 // the k-th attempt at a backend).
 type fwdParams struct {
-	Hosts, NumConns  int
-	Clients          int
-	OpsPerClient     int
-	MaxInflight      int
-	ErrPerMille      int // chance that a token gets a non-trivial outcome script
-	Faults           int // number of triggered faults
-	Kinds            []int // weights: query, prepare, execute, batch, system, options, register, use, unsupported, exec-unknown
-	Compression      []string
-	Versions         []primitive.ProtocolVersion
-	Disconnects      bool
-	Sequential       bool // one request in flight in the whole world (C05)
-	FaultFree        bool
-	HoldReplies      bool // backends hold every reply until the whole workload has been sent
-	LowestFree       bool // clients reuse the lowest free stream id
-	PreparedBatches  bool // batches consist mostly of (several distinct) prepared children
-	RichCQL          bool // statements from the CQL grammar generator (ground truth only for the non-idempotent class)
-	CheckTokens      bool // C02 oracle: the reply carries the token of the request on that stream
+	TracedPrepares  bool // some PREPAREs ask for tracing
+	Hosts, NumConns int
+	Clients         int
+	OpsPerClient    int
+	MaxInflight     int
+	ErrPerMille     int   // chance that a token gets a non-trivial outcome script
+	Faults          int   // number of triggered faults
+	Kinds           []int // weights: query, prepare, execute, batch, system, options, register, use, unsupported, exec-unknown
+	Compression     []string
+	Versions        []primitive.ProtocolVersion
+	Disconnects     bool
+	Sequential      bool // one request in flight in the whole world (C05)
+	FaultFree       bool
+	HoldReplies     bool // backends hold every reply until the whole workload has been sent
+	LowestFree      bool // clients reuse the lowest free stream id
+	PreparedBatches bool // batches consist mostly of (several distinct) prepared children
+	RichCQL         bool // statements from the CQL grammar generator (ground truth only for the non-idempotent class)
+	CheckTokens     bool // C02 oracle: the reply carries the token of the request on that stream
 }
 
 type prepInfo struct {
@@ -65,19 +66,20 @@ type trigFault struct {
 }
 
 type fwd struct {
-	e       *Env
-	p       fwdParams
-	w       *world.World
-	pi      *world.ProxyInst
-	clients []*world.Client
-	sent    []int
-	preps   []*prepInfo
-	info    map[*world.ClientReq]*reqInfo
-	byTok   map[string]*reqInfo
-	faults  []*trigFault
-	pending []func() // deferred fault actions (node restarts)
-	fired   map[string]int
-	scriptFn func(tok string, v primitive.ProtocolVersion) []world.OutcomeSpec
+	settleAny     bool // settle() accepts a node with at least one pooled connection
+	e             *Env
+	p             fwdParams
+	w             *world.World
+	pi            *world.ProxyInst
+	clients       []*world.Client
+	sent          []int
+	preps         []*prepInfo
+	info          map[*world.ClientReq]*reqInfo
+	byTok         map[string]*reqInfo
+	faults        []*trigFault
+	pending       []func() // deferred fault actions (node restarts)
+	fired         map[string]int
+	scriptFn      func(tok string, v primitive.ProtocolVersion) []world.OutcomeSpec
 	sharePrepared bool // a successful PREPARE is known to every node at once (no UNPREPARED)
 }
 
@@ -259,7 +261,11 @@ func (f *fwd) sendOne(i int) {
 		st := world.DrawStmt(ch, "?", "ks.t_"+tok)
 		ri.kind, ri.idem = "prepare", true
 		ri.specs = f.script(tok, c.Version)
-		ri.req = c.Send("prepare", tok, &message.Prepare{Query: st.Text}, nil)
+		var mod func(*frame.Frame)
+		if f.p.TracedPrepares && ch.Choose("traceprep", 3) == 2 {
+			mod = func(fr *frame.Frame) { fr.RequestTracingId(true) } // the node answers with a tracing id
+		}
+		ri.req = c.Send("prepare", tok, &message.Prepare{Query: st.Text}, mod)
 		ri.prep = &prepInfo{stmt: st, by: c, token: tok}
 		f.preps = append(f.preps, ri.prep)
 	case kExecute:
@@ -295,6 +301,14 @@ func (f *fwd) sendOne(i int) {
 				// know its text, so the whole batch is not positively idempotent
 				idem = false
 				b.Children = append(b.Children, &message.BatchChild{Id: f.foreignID(), Values: []*primitive.Value{primitive.NewValue([]byte(tok))}})
+				continue
+			}
+			if f.p.RichCQL && ch.Choose("junkchild", 8) == 7 {
+				// a child the proxy's classifier cannot parse (valid CQL it does not know, or
+				// garbage): not positively idempotent, wherever it stands among the children
+				junk := []string{"FROBNICATE " + tok, "UPDATE ks.t SET v = 1 WHERE k = '" + tok + "' /* c */ IF EXISTS", "INSERT INTO ks.t (k, v) VALUES ('" + tok + "', $$x$$)", "INSERT INTO ks.t (k, v) VALUES ('" + tok + "', 1 + 1)", "'" + tok + "'", "UPDATE ks.t SET v = ; WHERE k = '" + tok + "'"}
+				idem = false
+				b.Children = append(b.Children, &message.BatchChild{Query: junk[ch.Choose("junkwhich", len(junk))]})
 				continue
 			}
 			if !(f.p.PreparedBatches && ch.Choose("allprep", 4) != 0) && ch.Choose("batchchild", 2) == 0 {
@@ -611,6 +625,18 @@ func (f *fwd) runWorkload(drain time.Duration) (drained bool) {
 	}
 	f.pending = nil
 	return w.RunUntil(func() bool { return f.allAnswered() }, drain)
+}
+
+// clientsStillOpen: a client that sends only well-formed frames and did not leave must not have
+// been disconnected by the proxy, whatever happened at the backends.
+func (f *fwd) clientsStillOpen(oracle string) bool {
+	for _, c := range f.clients {
+		if !c.Gone && !c.Hostile && !c.Connected() {
+			f.w.Violate(oracle, "client-connection-closed-by-proxy", fmt.Sprintf("%s (%s, compression %q) sent only well-formed frames and did not disconnect, but the proxy closed its connection (%d requests outstanding)", c, c.Version, c.Compression, len(c.Outstanding)))
+			return false
+		}
+	}
+	return true
 }
 
 func (f *fwd) allAnswered() bool {
